@@ -106,7 +106,7 @@ theorem applyFn_closed {env : Env} {P : J → Prop} {KP : List String → Prop} 
           simp only [Option.bind_eq_bind, Option.bind_some] at h
           split at h
           · rename_i sep items
-            cases hss : strsOf items with
+            cases hss : pyStrsOf items with
             | none => simp [hss] at h
             | some ss => simp [hss] at h; subst h; exact hc.str _
           · cases h
